@@ -3,7 +3,16 @@
 ALL = [f'C{i:02d}' for i in range(1, 21)]
 
 # pid -> dict(level, text, note, technique, design_ref)
-CLAIMS = {}
+CLAIMS = {
+    'C18': dict(level='proof', engine='tables',
+                text='Every clause is a universally quantified statement over a finite key set (118 elements x tabulated isotopes x '
+                     'charges x hydrogens); the check reads the tables of the current tree and enumerates the key set completely, '
+                     'one obligation per key, so a pass is a proof for this tree.',
+                note='Trusted: CPython, the IUPAC symbol list embedded in the check, regex extraction of the .pyx literal tables, the '
+                     'published bit layouts (5-bit pack isotope code, matcher word III bits 46..62), CachedMethods shim. 19 reference '
+                     'isotopes missing from the nuclide tables are recorded in known_findings.jsonl.',
+                technique='finite table lemmas by complete enumeration (engine T)'),
+}
 
 NOT_BUILT = 'check under construction in this session - not claimed until its command exists and passes on the unchanged tree'
 
